@@ -1,6 +1,75 @@
 /-
-  C07 — property theorems (stub; to be filled in).
+  C07 — "One shared handle can be used from many goroutines at once, including first use".
+
+  What is proved here is the *logic* part: the schema-cache protocol (Model.SchemaCache, an LTS over
+  goroutines × model types with an arbitrary relation graph) for ARBITRARY schedules, and (Lemmas.SharedWrites,
+  over regenerated facts) which shared locations are assigned outside constructors at all.
+  Data-race freedom itself is a Go-memory-model matter: judged by the race detector on sampled schedules (partial).
 -/
+import GormModel.Model.SchemaCache
+import GormModel.Lemmas.SchemaCache
+import GormModel.Lemmas.SharedWrites
 namespace Gorm
+open Gorm.SchemaCache
+
+/-- state reached from the cold cache by threads with top-level programs `progs` under schedule `sched` -/
+def scReach (c : Cfg) (progs : List (List Nat)) (sched : List Nat) : State := run c (init progs) sched
+
+/-- Every caller of `Parse` (top level or nested via getOrParse→Parse) returns only after the returned schema's
+  `initialized` channel is closed — and it stays closed. -/
+theorem C07_parse_waits (c : Cfg) (progs : List (List Nat)) (sched : List Nat) :
+    ∀ r ∈ (scReach c progs sched).rets,
+      r.closedAtRet = true ∧ ((scReach c progs sched).objs r.obj).closed = true :=
+  fun r hr => SchemaCache.rets_closed c progs sched r hr
+
+/-- Single winner: all error-free returns of `Parse` for one model type deliver the same schema object,
+  whatever the schedule, the number of goroutines and the relation graph. -/
+theorem C07_cache_single_winner (c : Cfg) (progs : List (List Nat)) (sched : List Nat) :
+    ∀ r1 ∈ (scReach c progs sched).rets, ∀ r2 ∈ (scReach c progs sched).rets,
+      r1.ty = r2.ty → r1.err = false → r2.err = false → r1.obj = r2.obj :=
+  fun r1 h1 r2 h2 => SchemaCache.single_winner c progs sched r1 h1 r2 h2
+
+/-- What `Parse` returns without error is a schema of the requested type with ALL its own relations set. -/
+theorem C07_returned_complete (c : Cfg) (progs : List (List Nat)) (sched : List Nat) :
+    ∀ r ∈ (scReach c progs sched).rets, r.err = false →
+      ((scReach c progs sched).objs r.obj).ty = r.ty ∧ r.nrelAtRet = (relsOf c r.ty).length :=
+  fun r hr => SchemaCache.returned_complete c progs sched r hr
+
+/-- Deadlock freedom: in every reachable state in which some goroutine has not finished, some goroutine can step
+  (the wait-for graph over `initialized` channels is acyclic: publication stamps strictly increase along it). -/
+theorem C07_cache_deadlock_free (c : Cfg) (progs : List (List Nat)) (sched : List Nat) :
+    (∃ t, doneT (scReach c progs sched) t = false) → ∃ t, (step c (scReach c progs sched) t).isSome = true :=
+  SchemaCache.deadlock_free c progs sched
+
+/-! ### negative results (kernel-checked concrete schedules) -/
+
+/-- two mutually related models: type 0 has-many type 1, type 1 belongs-to type 0 -/
+def scCfgAB : Cfg := [[⟨1, true, false⟩], [⟨0, false, false⟩]]
+
+/-- thread 0 parses type 0 and publishes it; thread 1 parses type 1, and its parseRelation obtains type 0's schema
+  through getOrParse before thread 0 has set any relation (steps: t0 call,load1,tableName,load2,los ; t1 call,load1,
+  tableName,load2,los,rel 0). -/
+def scSchedPartial : List Nat := [0, 0, 0, 0, 0, 1, 1, 1, 1, 1, 1]
+
+/-- F10 at model level: getOrParse hands out a schema whose `initialized` is not closed and whose relations are
+  incomplete (the real parser of that schema is concurrently writing `Relationships.Relations`). -/
+theorem C07_getOrParse_sees_partial_example :
+    ∃ g ∈ (scReach scCfgAB [[0], [1]] scSchedPartial).gets,
+      g.closedAtGet = false ∧ g.nrelAtGet < (relsOf scCfgAB ((scReach scCfgAB [[0], [1]] scSchedPartial).objs g.obj).ty).length := by
+  refine ⟨⟨1, 1, 0, 0, false, 0⟩, ?_, ?_⟩ <;> decide
+
+/-- a model whose only relation field is invalid -/
+def scCfgBad : Cfg := [[⟨0, false, true⟩]]
+
+/-- Why `single_winner` speaks about error-free returns only: after a failed parse the entry is deleted and the next
+  caller builds a second schema object for the same type (both are returned, each with an error). -/
+theorem C07_error_reparse_example :
+    ∃ r1 ∈ (scReach scCfgBad [[0, 0]] (List.replicate 24 0)).rets,
+    ∃ r2 ∈ (scReach scCfgBad [[0, 0]] (List.replicate 24 0)).rets,
+      r1.ty = r2.ty ∧ r1.obj ≠ r2.obj ∧ r1.err = true ∧ r2.err = true := by
+  refine ⟨⟨0, 0, 1, true, false, true, 0⟩, ?_, ⟨0, 0, 0, true, false, true, 0⟩, ?_, ?_⟩ <;> decide +kernel
+
+/-- non-vacuity: a schedule on the cyclic graph in which both goroutines finish, returning the single winners -/
+example : (scReach scCfgAB [[0, 1], [1, 0]] (List.replicate 40 0 ++ List.replicate 40 1)).rets.length = 5 := by decide +kernel
 
 end Gorm
